@@ -526,13 +526,14 @@ PROPS = {
     ),
     "C16": dict(
         lean="AnyDB.Props.C16",
+        lean_extra=["AnyDB.Props.C16Window"],
         runs=[
             Run("vec", "faults", ["--mode", "faults"], (196, 50), (800, 110), proj_vec, ["C16", "C13", "panic"], vec_features),
             Run("vec", "rollback", ["--mode", "rollback"], (84, 50), (350, 110), proj_vec, ["C16", "panic"], vec_features),
         ],
         rule=VEC_RULE + "; the fault stream deletes the record of the current stamp, truncates it (0, 31, len-1, random offset) or overwrites one of its five length fields with an out-of-range value, then rolls back",
         assumptions=["single-file faults on the change directory only; a changed value byte inside a record is outside the fault model (no checksums)"],
-        level_text="Lean 4 theorems: with retention k≥1 the directory holds at most k records after a commit, none at or above the new stamp except the new one, and only records that were there before (C16_prune_*); a rollback whose record is missing, or does not parse — truncated at ANY byte offset, counts that overflow or exceed the input — fails and leaves the ENTIRE model state unchanged (C16_missing_refused, C16_unparsable_refused, C16_parse_short, C16_count_guard: counts are checked against the remaining input before anything is read or allocated); a record whose redundant length fields disagree is refused (C16_prevStoredLen_checked). Tied to the code by the fault stream: same answer kind, same state, same directory listing on the real vectors and the model, plus oracles: err ⇒ unchanged; success over a damaged record ⇒ contents are a committed state; retention window respected.",
+        level_text="Lean 4 theorems: with retention k≥1 the directory holds at most k records after a commit, none at or above the new stamp except the new one, and only records that were there before (C16_prune_*); a rollback whose record is missing, or does not parse — truncated at ANY byte offset, counts that overflow or exceed the input — fails and leaves the ENTIRE model state unchanged (C16_missing_refused, C16_unparsable_refused, C16_parse_short, C16_count_guard: counts are checked against the remaining input before anything is read or allocated); a record whose redundant length fields disagree is refused (C16_prevStoredLen_checked). Tied to the code by the fault stream: same answer kind, same state, same directory listing on the real vectors and the model, plus oracles: err ⇒ unchanged; success over a damaged record ⇒ contents are a committed state; retention window respected. The first sentence of the property is a whole-history theorem for the compressed formats (Props/C16Window.lean over C16Dir/C16Hist/C16Linked and C04Comp): C16_window_comp — retention k ≥ 1, an empty change directory, ANY number n of rounds of pushes and truncations each followed by a commit under a strictly increasing stamp (any compressor answers), then the model's own rollback (which looks the record up by the current stamp) again and again: each of the first min(k,n) rollbacks succeeds and after t of them the vector shows exactly what it showed at the t-th last commit; the next rollback is refused with an error and changes nothing; and the directory holds exactly the last min(k,n) records (hist_dir, commit_dir). Records travel through their bytes.",
         level_note="Trusted: Lean kernel + standard axioms; hand-written model; harness. F11 (record with prev_stored_len overwritten was applied; SIGSEGV on the real code) was found here and repaired by a fix: commit.",
         technique="Lean 4 proof over the change-record parser and retention rule + fault-injection correspondence (deleted / truncated / length-field-damaged records)",
     ),
